@@ -30,6 +30,11 @@ from .contracts import Contract
 MAX_PATHS = 4000
 
 
+def EngineBase_call_function(self, fi, args, kwargs):
+    from .engine_call import CallMixin
+    return CallMixin.call_function(self, fi, args, kwargs)
+
+
 @dataclass
 class PathRecord:
     decisions: Tuple[int, ...]
@@ -73,6 +78,7 @@ class Verifier(QuantMixin, LoopMixin, ExprMixin, CallMixin, StmtMixin, BuiltinsM
         self.cross_check = False
         self.cross: List[Dict[str, Any]] = []
         self.oracles: Dict[str, Dict[str, Any]] = {}
+        self.use_summaries = False
         self.field_types: Dict[Tuple[str, str], str] = {}
         self.oracle_methods: Dict[str, Dict[str, Any]] = {}
 
@@ -84,11 +90,143 @@ class Verifier(QuantMixin, LoopMixin, ExprMixin, CallMixin, StmtMixin, BuiltinsM
         self.quant_reset()
         self.loop_entry = []
         self.orc_spec = {}
+        self.spec_summaries = {}
+        self.summarising = False
         self.norm_of = {}
         self.in_norm_fact = False
         self.awaited_call = False
         self.container_elem_type = {}
         self.trace_init()
+
+    # ==================================================================================== spec-function summaries
+    def heap_key(self):
+        # every heap write is logged in self.writes; allocations only add cells of fresh objects
+        st = self.st
+        return (len(self.writes), tuple(sorted((n, g.get_id()) for n, g in st.ghost.items())))
+
+    def call_function(self, f, args, kwargs, star=None, dstar=None, node=None):
+        fi = f.func if isinstance(f, Closure) else f
+        if (self.sub_depth > 0 and not kwargs and star is None and dstar is None and self.use_summaries
+                and (isinstance(f, FuncInfo) or (isinstance(f, Closure) and f.frame is None))
+                and fi.module is not None and fi.module.name.startswith(('spec.', 'contracts.'))
+                and not isinstance(fi.node, ast.Lambda) and fi.qualname not in self.contracts
+                and not self.summarising):
+            r = self.summarised_spec_call(fi, args, node)
+            if r is not NotImplemented:
+                return r
+        return super().call_function(f, args, kwargs, star, dstar, node)
+
+    def mentions_new(self, t, ref0: int, cnt0: int) -> bool:
+        """does the term mention an object allocated (id >= ref0) or a symbol created (index > cnt0) later?"""
+        seen = set()
+        todo = [t]
+        while todo:
+            x = todo.pop()
+            if x.get_id() in seen:
+                continue
+            seen.add(x.get_id())
+            if z3.is_int_value(x):
+                continue
+            if z3.is_app(x) and x.decl().name() == 'ref' and x.num_args() == 1 and z3.is_int_value(x.arg(0)):
+                # a VALUE that is an object allocated during the generic run (store indices do not matter)
+                if x.arg(0).as_long() >= ref0 and x.arg(0).as_long() >= smt.FRESH_BASE:
+                    return True
+                continue
+            if z3.is_const(x) and x.decl().kind() == z3.Z3_OP_UNINTERPRETED:
+                nm = x.decl().name()
+                if '!' in nm:
+                    tail = nm.rsplit('!', 1)[1]
+                    if tail.isdigit() and int(tail) > cnt0 and not nm.startswith('g!'):
+                        if os.environ.get('PYVC_DEBUG'):
+                            print('[summary] new symbol', nm, cnt0, flush=True)
+                        return True
+                continue
+            if z3.is_app(x):
+                todo.extend(x.children())
+        return False
+
+    def summarised_spec_call(self, fi: FuncInfo, args, node=None):
+        """A pure spec function is evaluated ONCE per (function, argument classes, heap) on generic arguments; the
+        merged result is then instantiated by substitution.  Falls back to ordinary evaluation whenever the
+        generic run is not clean (fresh symbols, allocations, nested quantifiers, possible raise)."""
+        a = fi.node.args
+        if a.vararg or a.kwarg or a.kwonlyargs or len(a.args) != len(args):
+            return NotImplemented
+        cls_key = []
+        for v in args:
+            c = self.class_of(v)
+            sid = smt.static_id(v)
+            cls_key.append((c.qualname if c is not None else None, self.kind_of(v), sid if sid is not None and sid < 0 else None,
+                            self.is_old(v)))
+        key = (fi.qualname, tuple(cls_key), self.heap_key())
+        ent = self.spec_summaries.get(key)
+        if ent is None:
+            gens = []
+            for i, v in enumerate(args):
+                if cls_key[i][2] is not None:
+                    gens.append(v)                       # static objects stay themselves
+                    continue
+                g = z3.Const(f'g!{fi.name}!{i}!{len(self.spec_summaries)}', Val)
+                vid, gid = smt.simp(v).get_id(), g.get_id()
+                for tbl in (self.known_cls, self.hint_cls, self.kind_hint, self.hint_classobj, self.container_elem_type):
+                    if vid in tbl:
+                        tbl[gid] = tbl[vid]
+                if vid in self.old_terms:
+                    self.old_terms.add(gid)
+                    self._add_axiom(z3.Implies(Val.is_ref(g), Val.r(g) < smt.FRESH_BASE))
+                self._add_axiom(g != smt.ABSENT)
+                self.bounded.add(gid)
+                gens.append(g)
+            c0 = (self.fresh_counter, self.next_ref, sum(len(x) for x in self.q_facts.values()))
+            base = len(self.pc)
+            self.summarising = True
+            try:
+                try:
+                    rs = self.sub_explore(lambda: EngineBase_call_function(self, fi, list(gens), {}), pure=True)
+                except Unsupported:
+                    rs = None
+            finally:
+                self.summarising = False
+            new_axioms = [c for c, ax in zip(self.pc[base:], self.pc_axiom[base:]) if ax]
+            clean = rs is not None and sum(len(x) for x in self.q_facts.values()) == c0[2]
+            raise_guard = None
+            if clean:
+                rets = [r for r in rs if r[1] == 'ret']
+                rz = [r[0] for r in rs if r[1] == 'raise']
+                raise_guard = z3.Or(*rz) if rz else None
+                for guard, _, v, _ in rets:
+                    if self.mentions_new(guard, c0[1], c0[0]) or self.mentions_new(v, c0[1], c0[0]):
+                        clean = False
+                        if os.environ.get('PYVC_DEBUG'):
+                            print('[summary] dirty term:', str(guard)[:300], '||', str(v)[:200], flush=True)
+                if raise_guard is not None and self.mentions_new(raise_guard, c0[1], c0[0]):
+                    clean = False
+                rs = rets
+            if not clean or not rs:
+                ent = None
+                self.spec_summaries[key] = False
+                if os.environ.get('PYVC_DEBUG'):
+                    why = 'unsupported' if rs is None else (f'not clean {c0} -> {(self.fresh_counter, self.next_ref, sum(len(x) for x in self.q_facts.values()))}' if not clean else 'raises' if rs else 'no result')
+                    print(f'[summary] {fi.name}: no summary ({why})', flush=True)
+            else:
+                val = rs[-1][2]
+                for guard, _, v, _ in reversed(rs[:-1]):
+                    val = z3.If(guard, v, val)
+                new_axioms = [c for c in new_axioms if not self.mentions_new(c, c0[1], c0[0])]
+                ent = (gens, val, new_axioms, raise_guard)
+                self.spec_summaries[key] = ent
+        if not ent:
+            return NotImplemented
+        gens, val, axioms, raise_guard = ent
+        subst = [(g, v) for g, v in zip(gens, args) if not g.eq(v)]
+        if raise_guard is not None:
+            rg = z3.substitute(raise_guard, *subst) if subst else raise_guard
+            if self.feasible(rg):
+                return NotImplemented           # the function may raise on these arguments: evaluate it for real
+        for c in axioms:
+            self._add_axiom(z3.substitute(c, *subst) if subst else c)
+        out = smt.simp(z3.substitute(val, *subst)) if subst else val
+        return out
 
     # ==================================================================================== type specs
     def resolve_class(self, q: str) -> ClassInfo:
@@ -523,6 +661,27 @@ class Verifier(QuantMixin, LoopMixin, ExprMixin, CallMixin, StmtMixin, BuiltinsM
         f = z3.Function('uf_dup_in', smt.DictV, smt.SeqV, z3.BoolSort())
         return self.to_val_bool(f(self.dict_arr(ex), self.get_seq(ids)))
 
+    def _contents_equal(self, x, other_state):
+        r = Val.r(x)
+        cur = self.st
+        return z3.And(z3.Select(cur.dct, r) == z3.Select(other_state.dct, r),
+                      z3.Select(cur.dlen, r) == z3.Select(other_state.dlen, r),
+                      z3.Select(cur.seq, r) == z3.Select(other_state.seq, r))
+
+    def prim_contents_unchanged(self, e, fr):
+        """contents_unchanged(x): the members / elements of container x are what they were on entry to the
+        function (in a postcondition) or to the innermost loop (in an invariant)"""
+        x = self.ev(e.args[0], fr)
+        ent = getattr(self, 'loop_entry', None)
+        ref_state = ent[-1][0] if ent else self.old
+        if ref_state is None:
+            self.unsupported('contents_unchanged outside a postcondition / invariant', e)
+        return self.to_val_bool(self._contents_equal(x, ref_state))
+
+    def prim_contents_as_old(self, e, fr):
+        x = self.ev(e.args[0], fr)
+        return self.to_val_bool(self._contents_equal(x, self.old))
+
     def prim_uf(self, e, fr):
         """uf('name', a, b, ...): uninterpreted spec predicate over values (a dependency's semantics)"""
         name = ast.literal_eval(e.args[0])
@@ -853,6 +1012,20 @@ class Verifier(QuantMixin, LoopMixin, ExprMixin, CallMixin, StmtMixin, BuiltinsM
 
     def havoc_location(self, loc: str, env: Dict[str, Any]) -> None:
         """loc: 'param.attr' (attribute cell) | '$seq(param.attr)' | '$dict(param.attr)' contents"""
+        if loc == '$fresh':
+            # contents of every container allocated by the analysed call so far (its private temporaries)
+            for r in self.fresh_refs:
+                c = self.alloc_cls.get(r)
+                if c is None or not c.builtin:
+                    continue
+                if c.name in ('list',):
+                    self.st.seq = z3.Store(self.st.seq, r, self.fresh('hv_seq', smt.SeqV))
+                elif c.name in ('dict', 'set', 'defaultdict'):
+                    self.st.dct = z3.Store(self.st.dct, r, self.fresh('hv_dict', smt.DictV))
+                    n = self.fresh('hv_dlen', smt.I)
+                    self._add_axiom(n >= 0)
+                    self.st.dlen = z3.Store(self.st.dlen, r, n)
+            return
         if loc.startswith('$') and '(' not in loc:
             self.havoc_ghost(loc[1:])
             return
@@ -917,6 +1090,15 @@ class Verifier(QuantMixin, LoopMixin, ExprMixin, CallMixin, StmtMixin, BuiltinsM
 
         pos = a.posonlyargs + a.args
         for i, p in enumerate(pos):
+            if i == 0 and fi.cls is not None and fi.name == '__init__' and fi.kind == 'method':
+                # a constructor runs on a freshly allocated, uninitialised object of the class or a subclass
+                cidt = self.fresh('newcls', smt.I)
+                self.assume(self.sub_chain(cidt, fi.cls))
+                v = self.alloc_symbolic_class(cidt)
+                self.set_class(v, fi.cls, exact=False)
+                vals[p.arg] = v
+                args.append(v)
+                continue
             v = mk(p.arg)
             if i == 0 and fi.cls is not None and fi.kind in ('method', 'property'):
                 self.assume_type(v, fi.cls.qualname)
@@ -947,6 +1129,8 @@ class Verifier(QuantMixin, LoopMixin, ExprMixin, CallMixin, StmtMixin, BuiltinsM
         res = FuncResult(qualname=fi.qualname, contract=f'{ct.module}:{ct.name}', sha1=fi.sha1())
         self.current_func = fi.qualname
         self.current_contract = ct
+        self.fast_feasibility = bool(ct.extra.get('fast_feasibility', False))
+        self.use_summaries = bool(ct.extra.get('spec_summaries', False))
         self.obligations = []
         self.pending = [[]]
         self.stats = dict(paths=0, branches=0, feas_checks=0, solver_s=0.0, obligations=0)
